@@ -57,6 +57,9 @@ def decoys(isa):
             ["movl $111, %ebx", "addq $1, %r9"],      # marker mov not followed by a directive
             [c + " just a comment"],
             [".Lx:"],
+            # a register that merely overlaps the marker register, genuine value and bytes
+            ["movq $111, %rbx", ".byte 100,103,144"],
+            ["mov $222, %bx", ".byte 100,103,144"],
         ]
     return [
         ["add x9, x9, #1"],
@@ -67,6 +70,8 @@ def decoys(isa):
         ["mov x1, #111", "add x9, x9, #1"],
         [c + " just a comment"],
         [".Lx:"],
+        ["mov w1, #111", ".byte 213,3,32,31"],
+        ["mov w1, #222", ".byte 213,3,32,31"],
     ]
 
 
@@ -248,7 +253,7 @@ def run(ctx):
         for st in ("one", "multi", "spaced", "comment"):
             texts |= set(marker(isa, "start", st)) | set(marker(isa, "end", st))
         dgfam.warm_parse_cache(isa, sorted(texts))
-    npros = 1 + 8 + 64
+    npros = 1 + 10 + 100
     styles = ["one", "multi", "spaced", "comment", "only-start", "only-end", "none"]
     items = []
     for isa in ("x86", "aarch64"):
@@ -258,7 +263,7 @@ def run(ctx):
                     pe = itertools.product(range(npros), range(npros))
                 else:
                     pe = [(p, e) for p in range(npros) for e in range(npros)
-                          if p < 9 or e < 9]
+                          if p < 11 or e < 11]
                 items += [(isa, bi, style, p, e) for p, e in pe]
     out = core.pmap(detect_case, core.rotate(items, ctx.seed))
     for item, bad in out:
@@ -345,7 +350,7 @@ def run(ctx):
     res.evaluations = res.states
     res.extra = {"marker_files": len(items), "lines_specs": total, "e2e_runs": len(eitems)}
     res.rule = ("(a) all files prologue(<=2 decoy chunks) + start marker + body + end marker + "
-                "epilogue(<=2 chunks) over 8 decoys (other register, other value, marker mov + non-"
+                "epilogue(<=2 chunks) over 10 decoys (other register, a register that only overlaps the marker register, other value, marker mov + non-"
                 ".byte directive, truncated bytes, marker mov + instruction, comment, label) x 7 "
                 "marker styles x 3 bodies x 2 ISAs (quick: one side <= 1 chunk); (b) every --lines "
                 "string of <= 3 items over line numbers {1..3 (thorough 1..5), 9, 10, 11, 100}; (c) marked / --lines "
